@@ -53,6 +53,8 @@ func main() {
 		translate(load(*in), *dir, *coq, *meta)
 	case "driver":
 		driver(load(*in), *dir, *meta)
+	case "celdriver":
+		celDriver(load(*in), *dir, *meta)
 	default:
 		die("unknown subcommand %s", os.Args[1])
 	}
@@ -188,4 +190,30 @@ func driver(c *decl.Corpus, dir, metaPath string) {
 	srcText = strings.Replace(srcText, "/*REGS*/", regs.String(), 1)
 	must(os.MkdirAll(filepath.Join(dir, "drv"), 0o755))
 	must(os.WriteFile(filepath.Join(dir, "drv", "main.go"), []byte(srcText), 0o644))
+}
+
+func celDriver(c *decl.Corpus, dir, metaPath string) {
+	b, err := os.ReadFile(metaPath)
+	must(err)
+	var metas []structMeta
+	must(json.Unmarshal(b, &metas))
+	pkgs := map[string]bool{}
+	var regs strings.Builder
+	for _, m := range metas {
+		if !m.Generated {
+			continue
+		}
+		pkgs[m.Pkg] = true
+		T := m.Pkg + "." + m.Type
+		fmt.Fprintf(&regs, "\tregistry[%q] = &reg{New: func() any { return new(%s) }, VT: func(x any) error { return %s.Validate%s(x.(*%s)) }}\n", m.Key, T, m.Pkg, m.Type, T)
+	}
+	var imports []string
+	for p := range pkgs {
+		imports = append(imports, "\t\"scn/"+p+"\"")
+	}
+	sort.Strings(imports)
+	srcText := strings.Replace(celDriverTemplate, "/*IMPORTS*/", strings.Join(imports, "\n"), 1)
+	srcText = strings.Replace(srcText, "/*REGS*/", regs.String(), 1)
+	must(os.MkdirAll(filepath.Join(dir, "celdrv"), 0o755))
+	must(os.WriteFile(filepath.Join(dir, "celdrv", "main.go"), []byte(srcText), 0o644))
 }
